@@ -13,6 +13,25 @@ CRITERIA_OPERATORS = {
     '>': operator.OP_GT,
 }
 
+ORDERING_OPERATORS = (
+    operator.OP_LT, operator.OP_LE, operator.OP_GE, operator.OP_GT)
+
+
+def _type_class(value):
+    # Numbers and dates are ordered together, texts and booleans each among
+    # themselves.
+    if isinstance(value, xlerrors.ExcelError):
+        return None
+    try:
+        value = func_xltypes.ExcelType.cast_from_native(value)
+    except KeyError:
+        return None
+    if isinstance(value, (func_xltypes.Number, func_xltypes.DateTime)):
+        return func_xltypes.Number
+    if isinstance(value, (func_xltypes.Text, func_xltypes.Boolean)):
+        return type(value)
+    return None
+
 
 def parse_criteria(criteria):
 
@@ -38,7 +57,14 @@ def parse_criteria(criteria):
             else:
                 break
 
+        ordering = operator in ORDERING_OPERATORS
+        value_class = _type_class(value)
+
         def check(probe):
+            # An ordering criterion only matches cells of its operand's type:
+            # ">0" does not count text cells, "<b" does not count numbers.
+            if ordering and _type_class(probe) is not value_class:
+                return False
             return operator(probe, value)
 
         return check
